@@ -12,7 +12,7 @@ from .sym import Unsupported
 from .path import Explorer, PathCtx, NativeCtx, RaiseEx, Infeasible, Obligation
 from .interp import Interp
 from .values import SObj, values_equal, class_of
-from .spec import SpecRaise, PreconditionFailed, AnyOf, And
+from .spec import SpecRaise, PreconditionFailed, AnyOf, And, Alternatives
 
 
 ROOT = os.environ.get("PYVC_ROOT", "/repo")
@@ -149,6 +149,20 @@ def _name_of(classes):
 
 def compare_outcomes(ctx, out_b, out_s, objs1, objs2, label="", state_on_raise=True):
     """obligations: the body's outcome equals the spec function's outcome."""
+    if out_s[0] == "return" and isinstance(out_s[1], Alternatives):
+        ok = []
+        for alt in out_s[1].alts:
+            if alt[0] == "return" and out_b[0] == "return":
+                ok.append(values_equal(out_b[1], alt[1]))
+            elif alt[0] == "raise" and out_b[0] == "raise":
+                ok.append(any(issubclass(out_b[1], k) for k in alt[1]))
+        from .spec import Or as _Or
+        what = "returns" if out_b[0] == "return" else "raises %s at %s" % (out_b[1].__name__, out_b[3])
+        ctx.prove(label + "refines/one-of-the-allowed-outcomes", _Or(ok) if ok else False,
+                  detail="%s, which is none of the outcomes the specification allows" % what)
+        for i, (o1, o2) in enumerate(zip(objs1, objs2)):
+            compare_state(ctx, o1, o2, label, i)
+        return
     if out_b[0] == "return" and out_s[0] == "return":
         ctx.prove(label + "refines/result", values_equal(out_b[1], out_s[1]),
                   detail="returned value differs from the specification")
@@ -356,7 +370,17 @@ def replay_refines(unit, model):
         info["real_outcome"] = [out_b[0], describe(out_b[1])]
         info["spec_outcome"] = [out_s[0], describe(out_s[1]) if out_s[0] == "return" else _name_of(out_s[1])]
         diff = []
-        if out_b[0] != out_s[0]:
+        if out_s[0] == "return" and isinstance(out_s[1], Alternatives):
+            okk = False
+            for alt in out_s[1].alts:
+                if alt[0] == "return" and out_b[0] == "return" and values_equal(out_b[1], alt[1]):
+                    okk = True
+                if alt[0] == "raise" and out_b[0] == "raise" and any(issubclass(out_b[1], k) for k in alt[1]):
+                    okk = True
+            info["spec_outcome"] = ["one-of", [a[0] for a in out_s[1].alts]]
+            if not okk:
+                diff.append("outcome is none of the allowed alternatives")
+        elif out_b[0] != out_s[0]:
             diff.append("outcome kind: real %s vs spec %s" % (out_b[0], out_s[0]))
         elif out_b[0] == "return":
             if not values_equal(out_b[1], out_s[1]):
